@@ -802,7 +802,13 @@ def _gen_step(rnd, sh, src, shadows, focus=None, strict=False):
         if not groups:
             st['act'] = 'copy'
             return st
-        vs = groups[rnd.choice(sorted(groups))]
+        dd0 = rnd.choice(sorted(groups))
+        vs = list(groups[dd0])
+        if rnd.random() < 0.35:
+            # operands that broadcast: variables on trailing dimensions
+            for dd, ks in sorted(groups.items()):
+                if 0 < len(dd) < len(dd0) and dd == dd0[len(dd0) - len(dd):]:
+                    vs += ks
 
         def rexpr(depth):
             r = rnd.random()
